@@ -89,38 +89,47 @@ theorem c02_id_short (s : Str) :
     simp only [pyIsAlphaCh, pyIsLowerCh, pyIsUpperCh, sampleLower, sampleUpper, sampleUncased, Spec.letter, Bool.or_eq_true,
       Bool.and_eq_true, decide_eq_true_eq, List.contains_cons, List.contains_nil, Bool.or_false, beq_iff_eq]
     omega
+  have hm : idShortPatternMatch StrCons.idShortPattern s = s.all idShortCharOk := by
+    unfold idShortPatternMatch; rw [if_pos (by decide)]
   unfold validateIdShort
-  rw [checkNamed_name]
-  by_cases h1 : check s 1 128 "" = .ok ()
-  · have s1 := (check_plain_iff s 1 128).1 h1
-    simp only [h1, andThen, c02_id_short_pattern, idShortPatternMatch, ↓reduceIte]
+  rw [checkNamed_name, hm]
+  cases hc : check s 1 128 "" with
+  | error e' =>
+    simp only [andThen, reduceCtorEq, false_iff]
+    refine ⟨?_, fun e he => by cases he; exact Or.inl (check_err s 1 128 "" e' hc)⟩
+    rintro ⟨h, _⟩
+    rw [(check_plain_iff s 1 128).2 h] at hc; cases hc
+  | ok u =>
+    cases u
+    have s1 := (check_plain_iff s 1 128).1 hc
+    simp only [andThen]
     by_cases h2 : s.all idShortCharOk = true
-    · simp only [h2, Bool.not_true, Bool.false_eq_true, ↓reduceIte]
+    · rw [h2]
+      simp only [Bool.not_true, Bool.false_eq_true, ↓reduceIte]
       have h2' := List.all_eq_true.1 h2
       cases s with
       | nil => simp [Spec.StrOk] at s1
       | cons c r =>
-        have hc := h2' c (List.mem_cons_self ..)
+        have hcc := h2' c (List.mem_cons_self ..)
+        dsimp only
         by_cases h3 : pyIsAlphaCh c = true
-        · simp only [h3, Bool.not_true, Bool.false_eq_true, ↓reduceIte, true_iff, reduceCtorEq, false_imp_iff, implies_true, and_true]
-          exact ⟨s1, fun x hx => (hpat x).1 (h2' x hx), c, rfl, (halpha c hc).1 h3⟩
-        · simp only [h3, Bool.not_false, ↓reduceIte, reduceCtorEq, false_iff]
+        · rw [h3]
+          simp only [Bool.not_true, Bool.false_eq_true, ↓reduceIte, true_iff, reduceCtorEq, false_imp_iff, implies_true, and_true]
+          exact ⟨s1, fun x hx => (hpat x).1 (h2' x hx), c, rfl, (halpha c hcc).1 h3⟩
+        · have h3' : pyIsAlphaCh c = false := by simpa using h3
+          rw [h3']
+          simp only [Bool.not_false, ↓reduceIte, reduceCtorEq, false_iff]
           refine ⟨?_, fun e he => by cases he; exact Or.inr rfl⟩
           rintro ⟨_, _, c', hc', hl⟩
           simp only [List.head?_cons, Option.some.injEq] at hc'
           subst hc'
-          exact h3 ((halpha c hc).2 hl)
-    · simp only [h2, Bool.not_false, ↓reduceIte, reduceCtorEq, false_iff]
+          exact h3 ((halpha c hcc).2 hl)
+    · have h2' : s.all idShortCharOk = false := by simpa using h2
+      rw [h2']
+      simp only [Bool.not_false, ↓reduceIte, reduceCtorEq, false_iff]
       refine ⟨?_, fun e he => by cases he; exact Or.inr rfl⟩
       rintro ⟨_, hall, _⟩
       exact h2 (List.all_eq_true.2 (fun x hx => (hpat x).2 (hall x hx)))
-  · cases hc : check s 1 128 "" with
-    | ok u => cases u; exact absurd hc h1
-    | error e' =>
-      simp only [andThen, reduceCtorEq, false_iff]
-      refine ⟨?_, fun e he => by cases he; exact Or.inl (check_err s 1 128 "" e' hc)⟩
-      rintro ⟨h, _⟩
-      exact h1 ((check_plain_iff s 1 128).2 h)
 
 /-! ## 2b. references — key chains of ANY length -/
 
@@ -315,5 +324,820 @@ theorem c02_entity_run (s : Entity) (hok : EntityOk s) : ∀ ops : List EntityOp
 example : Entity.ctor .selfManaged none [7] = .ok ⟨.selfManaged, none, [7]⟩ := by decide
 example : (Entity.step ⟨.selfManaged, none, [7]⟩ (.list (.pop none))).2 = .error (.aascv 14) := by decide
 example : (Entity.run ⟨.selfManaged, none, [7]⟩ [.setGid (some [103]), .list .clear]) = ⟨.selfManaged, some [103], []⟩ := by decide
+
+/-! ## 3b. AssetInformation (AASd-131) -/
+
+def AssetOk (s : Asset) : Prop := Spec.optStr 1 2000 s.gid ∧ Spec.optStr 1 2000 s.assetType ∧ Spec.aasd131 s.gid s.sids
+
+def Asset.effect (s : Asset) : AssetOp → Res Asset
+  | .setGid g => .ok { s with gid := g }
+  | .setAssetType t => .ok { s with assetType := t }
+  | .list op => match listEffect s.sids op with | .ok l => .ok { s with sids := l } | .error e => .error e
+
+def Asset.run (s : Asset) : List AssetOp → Asset
+  | [] => s
+  | op :: r => Asset.run (s.step op).1 r
+
+theorem c02_asset_ctor (g : Option Str) (l : List Nat) (t : Option Str) (s : Asset) :
+    Asset.ctor g l t = .ok s → s = ⟨g, l, t⟩ ∧ AssetOk s := by
+  unfold Asset.ctor
+  simp only [andThen_ok]
+  rintro ⟨ht, hg, hv, hs⟩
+  cases hs
+  exact ⟨rfl, (checkOpt_identifier_iff g).1 hg, (checkOpt_identifier_iff t).1 ht, (aasd131_iff g l).2 (validate131_ok hv).1⟩
+
+theorem c02_asset_sound (s : Asset) (op : AssetOp) (hok : AssetOk s) : (s.step op).2 = .ok () → AssetOk (s.step op).1 := by
+  cases op with
+  | setGid g =>
+    simp only [Asset.step]
+    cases hv : andThen (checkOpt "identifier" g) (validate131 g (decide (s.sids.length > 0))) with
+    | ok u =>
+      cases u
+      rw [andThen_ok] at hv
+      intro _; exact ⟨(checkOpt_identifier_iff g).1 hv.1, hok.2.1, (aasd131_iff _ _).2 (validate131_ok hv.2).1⟩
+    | error e => simp
+  | setAssetType t =>
+    simp only [Asset.step]
+    cases hv : checkOpt "identifier" t with
+    | ok u => cases u; intro _; exact ⟨hok.1, (checkOpt_identifier_iff t).1 hv, hok.2.2⟩
+    | error e => simp
+  | list lop =>
+    simp only [Asset.step]
+    cases hv : listStep (assetHooks s.gid) s.sids lop with
+    | ok l =>
+      intro _
+      exact ⟨hok.1, hok.2.1, (aasd131_iff _ _).2
+        (listStep_sound _ _ (assetHooks_sound s.gid) s.sids lop l ((aasd131_iff _ _).1 hok.2.2) hv)⟩
+    | error e => simp
+
+theorem c02_asset_atomic (s : Asset) (op : AssetOp) : (s.step op).2 ≠ .ok () → (s.step op).1 = s := by
+  cases op <;> simp only [Asset.step] <;> split <;> simp
+
+theorem c02_asset_refines (s : Asset) (op : AssetOp) : (s.step op).2 = .ok () → s.effect op = .ok (s.step op).1 := by
+  cases op with
+  | setGid g => simp only [Asset.step, Asset.effect]; split <;> simp
+  | setAssetType t => simp only [Asset.step, Asset.effect]; split <;> simp
+  | list lop =>
+    simp only [Asset.step, Asset.effect]
+    cases hv : listStep (assetHooks s.gid) s.sids lop with
+    | ok l => simp [listStep_refines _ _ _ _ hv]
+    | error e => simp
+
+theorem c02_asset_complete (s t : Asset) (op : AssetOp) (hok : AssetOk s) (heff : s.effect op = .ok t) (hbad : ¬ AssetOk t) :
+    (s.step op).2 = .error .valueError ∨ (s.step op).2 = .error (.aascv 131) := by
+  cases op with
+  | setGid g =>
+    simp only [Asset.effect, Except.ok.injEq] at heff
+    subst heff
+    simp only [Asset.step]
+    cases hc : checkOpt "identifier" g with
+    | error e =>
+      have := checkOpt_err "identifier" g e (Or.inl rfl) hc
+      subst this
+      simp [andThen]
+    | ok u =>
+      have hg := (checkOpt_identifier_iff g).1 (by cases u; exact hc)
+      have : ¬ P131 g (decide (s.sids.length > 0)) := fun h => hbad ⟨hg, hok.2.1, (aasd131_iff _ _).2 h⟩
+      simp [andThen, validate131_bad this]
+  | setAssetType ty =>
+    simp only [Asset.effect, Except.ok.injEq] at heff
+    subst heff
+    simp only [Asset.step]
+    cases hc : checkOpt "identifier" ty with
+    | error e =>
+      have := checkOpt_err "identifier" ty e (Or.inl rfl) hc
+      subst this
+      simp
+    | ok u =>
+      exact absurd ⟨hok.1, (checkOpt_identifier_iff ty).1 (by cases u; exact hc), hok.2.2⟩ hbad
+  | list lop =>
+    simp only [Asset.effect] at heff
+    cases hl : listEffect s.sids lop with
+    | error e => rw [hl] at heff; cases heff
+    | ok l =>
+      rw [hl] at heff
+      simp only [Except.ok.injEq] at heff
+      subst heff
+      have hb : ¬ P131 s.gid (decide (l.length > 0)) := fun h => hbad ⟨hok.1, hok.2.1, (aasd131_iff _ _).2 h⟩
+      have := listStep_complete _ _ _ (assetHooks_sound s.gid) (assetHooks_complete s.gid hok.1) s.sids lop l
+        ((aasd131_iff _ _).1 hok.2.2) hl hb
+      simp [Asset.step, this]
+
+theorem c02_asset_run (s : Asset) (hok : AssetOk s) : ∀ ops : List AssetOp, AssetOk (s.run ops) := by
+  intro ops
+  induction ops generalizing s with
+  | nil => exact hok
+  | cons op r ih =>
+    apply ih
+    by_cases h : (s.step op).2 = .ok ()
+    · exact c02_asset_sound s op hok h
+    · rw [c02_asset_atomic s op h]; exact hok
+
+example : Asset.ctor none [] none = .error (.aascv 131) := by decide
+example : (Asset.step ⟨none, [1, 2], none⟩ (.list (.delSlice none none))).2 = .error (.aascv 131) := by decide
+example : (Asset.step ⟨none, [1, 2], none⟩ (.list (.delSlice (some 1) none))).1 = ⟨none, [1], none⟩ := by decide
+
+/-! ## 3c. HasSemantics (AASd-118) — add hook, set hook (setter / slice / constructor path), semantic_id setter -/
+
+def SemOk (s : Sem) : Prop := Spec.aasd118 s.sem s.supp
+
+def Sem.effect (s : Sem) : SemOp → Res Sem
+  | .setSem r => .ok { s with sem := r }
+  | .list op => match listEffect s.supp op with | .ok l => .ok { s with supp := l } | .error e => .error e
+
+def Sem.run (s : Sem) : List SemOp → Sem
+  | [] => s
+  | op :: r => Sem.run (s.step op).1 r
+
+theorem c02_sem_ctor (r : Option Nat) (l : List Nat) (s : Sem) : Sem.ctor r l = .ok s → s = ⟨r, l⟩ ∧ SemOk s := by
+  unfold Sem.ctor
+  cases hv : listStep (semHooks r) [] (.assign l) with
+  | error e => simp
+  | ok l' =>
+    simp only [Except.ok.injEq]
+    intro hs; subst hs
+    have h1 := listStep_refines _ _ _ _ hv
+    have h2 : listEffect [] (.assign l) = .ok l := by
+      simp [listEffect, listStep, setSliceStep, sliceBounds, andThen, noHooks]
+    rw [h2] at h1; cases h1
+    exact ⟨rfl, (aasd118_iff _ _).2 (listStep_sound _ _ (semHooks_sound r) [] (.assign l) l (by simp [P118]) hv)⟩
+
+theorem c02_sem_sound (s : Sem) (op : SemOp) (hok : SemOk s) : (s.step op).2 = .ok () → SemOk (s.step op).1 := by
+  cases op with
+  | setSem r =>
+    simp only [Sem.step]
+    split
+    · simp
+    · rename_i h
+      intro _
+      show Spec.aasd118 r s.supp
+      intro hne
+      cases r with
+      | some v => simp
+      | none =>
+        have : s.supp.length > 0 := by cases hs : s.supp with | nil => exact absurd hs hne | cons a b => simp
+        simp [this] at h
+  | list lop =>
+    simp only [Sem.step]
+    cases hv : listStep (semHooks s.sem) s.supp lop with
+    | ok l =>
+      intro _
+      exact (aasd118_iff _ _).2 (listStep_sound _ _ (semHooks_sound s.sem) s.supp lop l ((aasd118_iff _ _).1 hok) hv)
+    | error e => simp
+
+theorem c02_sem_atomic (s : Sem) (op : SemOp) : (s.step op).2 ≠ .ok () → (s.step op).1 = s := by
+  cases op <;> simp only [Sem.step] <;> split <;> simp
+
+theorem c02_sem_refines (s : Sem) (op : SemOp) : (s.step op).2 = .ok () → s.effect op = .ok (s.step op).1 := by
+  cases op with
+  | setSem r => simp only [Sem.step, Sem.effect]; split <;> simp
+  | list lop =>
+    simp only [Sem.step, Sem.effect]
+    cases hv : listStep (semHooks s.sem) s.supp lop with
+    | ok l => simp [listStep_refines _ _ _ _ hv]
+    | error e => simp
+
+theorem c02_sem_complete (s t : Sem) (op : SemOp) (hok : SemOk s) (heff : s.effect op = .ok t) (hbad : ¬ SemOk t) :
+    (s.step op).2 = .error (.aascv 118) := by
+  cases op with
+  | setSem r =>
+    simp only [Sem.effect, Except.ok.injEq] at heff
+    subst heff
+    simp only [SemOk, Spec.aasd118, ne_eq, Classical.not_imp, Classical.not_not] at hbad
+    obtain ⟨h1, h2⟩ := hbad
+    have : s.supp.length > 0 := by cases hs : s.supp with | nil => exact absurd hs h1 | cons a b => simp
+    simp [Sem.step, h2, this]
+  | list lop =>
+    simp only [Sem.effect] at heff
+    cases hl : listEffect s.supp lop with
+    | error e => rw [hl] at heff; cases heff
+    | ok l =>
+      rw [hl] at heff
+      simp only [Except.ok.injEq] at heff
+      subst heff
+      have hb : ¬ P118 s.sem (decide (l.length > 0)) := fun h => hbad ((aasd118_iff _ _).2 h)
+      have := listStep_complete _ _ _ (semHooks_sound s.sem) (semHooks_complete s.sem) s.supp lop l
+        ((aasd118_iff _ _).1 hok) hl hb
+      simp [Sem.step, this]
+
+theorem c02_sem_run (s : Sem) (hok : SemOk s) : ∀ ops : List SemOp, SemOk (s.run ops) := by
+  intro ops
+  induction ops generalizing s with
+  | nil => exact hok
+  | cons op r ih =>
+    apply ih
+    by_cases h : (s.step op).2 = .ok ()
+    · exact c02_sem_sound s op hok h
+    · rw [c02_sem_atomic s op h]; exact hok
+
+-- the three entry points that were open on the pinned tree (constructor, attribute setter, slice assignment) now raise
+example : Sem.ctor none [1] = .error (.aascv 118) := by decide
+example : (Sem.step ⟨none, []⟩ (.list (.assign [1]))).2 = .error (.aascv 118) := by decide
+example : (Sem.step ⟨none, []⟩ (.list (.setSlice none none [1]))).2 = .error (.aascv 118) := by decide
+example : (Sem.run ⟨none, []⟩ [.setSem (some 0), .list (.assign [1, 2]), .setSem none]) = ⟨some 0, [1, 2]⟩ := by decide
+
+/-! ## 3d. BasicEventElement -/
+
+def EventOk (s : Event) : Prop :=
+  Spec.eventDirection s.direction s.maxInterval ∧ Spec.lastUpdateUtc s.lastUpdate ∧ Spec.optStr 1 255 s.topic
+
+def Event.effect (s : Event) : EventOp → Event
+  | .setDirection d => { s with direction := d }
+  | .setMaxInterval p => { s with maxInterval := p }
+  | .setLastUpdate t => { s with lastUpdate := t }
+  | .setTopic t => { s with topic := t }
+
+def Event.run (s : Event) : List EventOp → Event
+  | [] => s
+  | op :: r => Event.run (s.step op).1 r
+
+private theorem stampChk_iff (t : Stamp) : stampChk t = .ok () ↔ Spec.lastUpdateUtc t := by
+  unfold stampChk Spec.lastUpdateUtc
+  match t with
+  | none => simp
+  | some none => simp
+  | some (some tz) =>
+    by_cases h : tz.offset = 0 <;> simp [h]
+
+private theorem stampChk_err (t : Stamp) (e : Err) : stampChk t = .error e → e = .valueError := by
+  unfold stampChk
+  match t with
+  | none => simp
+  | some none => intro h; cases h; rfl
+  | some (some tz) => by_cases h : tz.offset = 0 <;> simp [h] <;> intro h <;> exact h.symm
+
+theorem c02_event_ctor (d : Direction) (t : Option Str) (lu : Stamp) (mi : Bool) (s : Event) :
+    Event.ctor d t lu mi = .ok s → s = ⟨d, mi, lu, t⟩ ∧ EventOk s := by
+  unfold Event.ctor
+  simp only [andThen_ok]
+  rintro ⟨ht, hl, hs⟩
+  split at hs
+  · cases hs
+  · rename_i hc
+    cases hs
+    refine ⟨rfl, ?_, (stampChk_iff lu).1 hl, (checkOpt_topic_iff t).1 ht⟩
+    intro hd; simp only at hd; subst hd
+    cases mi <;> simp_all
+
+theorem c02_event_sound (s : Event) (op : EventOp) (hok : EventOk s) : (s.step op).2 = .ok () → EventOk (s.step op).1 := by
+  cases op with
+  | setDirection d =>
+    simp only [Event.step]
+    split
+    · simp
+    · rename_i h
+      intro _
+      refine ⟨?_, hok.2⟩
+      intro hd; simp only at hd; subst hd
+      cases hm : s.maxInterval <;> simp_all
+  | setMaxInterval p =>
+    simp only [Event.step]
+    split
+    · simp
+    · rename_i h
+      intro _
+      refine ⟨?_, hok.2⟩
+      intro hd; simp only at hd
+      cases p <;> simp_all
+  | setLastUpdate t =>
+    simp only [Event.step]
+    cases hv : stampChk t with
+    | ok u => cases u; intro _; exact ⟨hok.1, (stampChk_iff t).1 hv, hok.2.2⟩
+    | error e => simp
+  | setTopic t =>
+    simp only [Event.step]
+    cases hv : checkOpt "message_topic_type" t with
+    | ok u => cases u; intro _; exact ⟨hok.1, hok.2.1, (checkOpt_topic_iff t).1 hv⟩
+    | error e => simp
+
+theorem c02_event_atomic (s : Event) (op : EventOp) : (s.step op).2 ≠ .ok () → (s.step op).1 = s := by
+  cases op <;> simp only [Event.step] <;> split <;> simp
+
+theorem c02_event_refines (s : Event) (op : EventOp) : (s.step op).2 = .ok () → (s.step op).1 = s.effect op := by
+  cases op <;> simp only [Event.step, Event.effect] <;> split <;> simp
+
+/-- direction = input with a max_interval, a non-UTC (or naive) last_update, a malformed topic: all raise ValueError -/
+theorem c02_event_complete (s : Event) (op : EventOp) (hok : EventOk s) (hbad : ¬ EventOk (s.effect op)) :
+    (s.step op).2 = .error .valueError := by
+  cases op with
+  | setDirection d =>
+    simp only [Event.step]
+    split
+    · rfl
+    · rename_i h
+      exfalso; apply hbad
+      refine ⟨?_, hok.2⟩
+      intro hd; simp only [Event.effect] at hd; subst hd
+      cases hm : s.maxInterval <;> simp_all [Event.effect]
+  | setMaxInterval p =>
+    simp only [Event.step]
+    split
+    · rfl
+    · rename_i h
+      exfalso; apply hbad
+      refine ⟨?_, hok.2⟩
+      intro hd; simp only [Event.effect] at hd
+      cases p <;> simp_all [Event.effect]
+  | setLastUpdate t =>
+    simp only [Event.step]
+    cases hv : stampChk t with
+    | ok u => cases u; exact absurd ⟨hok.1, (stampChk_iff t).1 hv, hok.2.2⟩ hbad
+    | error e => have := stampChk_err t e hv; subst this; rfl
+  | setTopic t =>
+    simp only [Event.step]
+    cases hv : checkOpt "message_topic_type" t with
+    | ok u => cases u; exact absurd ⟨hok.1, hok.2.1, (checkOpt_topic_iff t).1 hv⟩ hbad
+    | error e => have := checkOpt_err _ t e (Or.inr (Or.inl rfl)) hv; subst this; rfl
+
+theorem c02_event_run (s : Event) (hok : EventOk s) : ∀ ops : List EventOp, EventOk (s.run ops) := by
+  intro ops
+  induction ops generalizing s with
+  | nil => exact hok
+  | cons op r ih =>
+    apply ih
+    by_cases h : (s.step op).2 = .ok ()
+    · exact c02_event_sound s op hok h
+    · rw [c02_event_atomic s op h]; exact hok
+
+-- a +01:00 zone that merely calls itself "UTC" is refused; a zero offset under any name is accepted
+example : (Event.step ⟨.output, false, none, none⟩ (.setLastUpdate (some (some ⟨3600, true⟩)))).2 = .error .valueError := by decide
+example : (Event.step ⟨.output, false, none, none⟩ (.setLastUpdate (some (some ⟨0, false⟩)))).2 = .ok () := by decide
+example : Event.ctor .input none none true = .error .valueError := by decide
+
+/-! ## 3e. AdministrativeInformation (AASd-005) -/
+
+def AdminOk (s : Admin) : Prop :=
+  (∀ v, s.version = some v → Spec.StrOk 1 4 v ∧ Spec.VersionPattern v) ∧
+  (∀ r, s.revision = some r → Spec.StrOk 1 4 r ∧ Spec.VersionPattern r) ∧
+  Spec.optStr 1 2000 s.templateId ∧ Spec.aasd005 s.version s.revision
+
+def Admin.run (s : Admin) : List AdminOp → Admin
+  | [] => s
+  | op :: r => Admin.run (s.step op).1 r
+
+private theorem checkOpt_version_iff (v : Option Str) :
+    checkOpt "version_type" v = .ok () ↔ ∀ s, v = some s → Spec.StrOk 1 4 s ∧ Spec.VersionPattern s := by
+  cases v with
+  | none => simp [checkOpt]
+  | some s => simp [checkOpt, checkNamed_version, check_version_iff]
+
+private theorem checkOpt_revision_iff (v : Option Str) :
+    checkOpt "revision_type" v = .ok () ↔ ∀ s, v = some s → Spec.StrOk 1 4 s ∧ Spec.VersionPattern s := by
+  cases v with
+  | none => simp [checkOpt]
+  | some s => simp [checkOpt, checkNamed_revision, check_version_iff]
+
+private theorem revisionChk_ok (version rev : Option Str) :
+    revisionChk version rev = .ok () →
+      (∀ s, rev = some s → Spec.StrOk 1 4 s ∧ Spec.VersionPattern s) ∧ Spec.aasd005 version rev := by
+  unfold revisionChk
+  split
+  · simp
+  · rename_i h
+    intro hc
+    have hr := (checkOpt_revision_iff rev).1 hc
+    refine ⟨hr, ?_⟩
+    intro hv; subst hv
+    cases rev with
+    | none => rfl
+    | some r =>
+      have := (hr r rfl).1.1
+      cases r with
+      | nil => simp at this
+      | cons a b => simp at h
+
+theorem c02_admin_ctor (v r t : Option Str) (s : Admin) : Admin.ctor v r t = .ok s → s = ⟨v, r, t⟩ ∧ AdminOk s := by
+  unfold Admin.ctor
+  simp only [andThen_ok]
+  rintro ⟨hv, hr, ht, hs⟩
+  cases hs
+  have := revisionChk_ok v r hr
+  exact ⟨rfl, (checkOpt_version_iff v).1 hv, this.1, (checkOpt_identifier_iff t).1 ht, this.2⟩
+
+/-  FULL STATEMENT (false on the current tree — known finding `admin.version:accepted:aasd005`):
+      theorem c02_admin_sound (s : Admin) (op : AdminOp) (hok : AdminOk s) :
+          (s.step op).2 = .ok () → AdminOk (s.step op).1
+    `AdministrativeInformation.version` is a plain `constrain_version_type` property: assigning `None` while a revision
+    is set is accepted and leaves a revision without version.  Proved below: the statement for every op except that one,
+    and the negation on a witness. -/
+theorem c02_admin_sound_partial (s : Admin) (op : AdminOp) (hok : AdminOk s)
+    (hgap : op = .setVersion none → s.revision = none) :
+    (s.step op).2 = .ok () → AdminOk (s.step op).1 := by
+  cases op with
+  | setVersion v =>
+    simp only [Admin.step]
+    cases hv : checkOpt "version_type" v with
+    | error e => simp
+    | ok u =>
+      cases u
+      intro _
+      refine ⟨(checkOpt_version_iff v).1 hv, hok.2.1, hok.2.2.1, ?_⟩
+      intro hn; simp only at hn; subst hn
+      exact hgap rfl
+  | setRevision r =>
+    simp only [Admin.step]
+    cases hv : revisionChk s.version r with
+    | error e => simp
+    | ok u =>
+      cases u
+      intro _
+      have := revisionChk_ok _ _ hv
+      exact ⟨hok.1, this.1, hok.2.2.1, this.2⟩
+  | setTemplateId t =>
+    simp only [Admin.step]
+    cases hv : checkOpt "identifier" t with
+    | error e => simp
+    | ok u => cases u; intro _; exact ⟨hok.1, hok.2.1, (checkOpt_identifier_iff t).1 hv, hok.2.2.2⟩
+
+/-- negation witness of the full statement: version "1", revision "2", then `version = None` -/
+theorem c02_admin_version_clear_breaks_005 :
+    ∃ s : Admin, AdminOk s ∧ (s.step (.setVersion none)).2 = .ok () ∧ ¬ AdminOk (s.step (.setVersion none)).1 := by
+  refine ⟨⟨some [49], some [50], none⟩, ?_, by decide, ?_⟩
+  · exact (c02_admin_ctor (some [49]) (some [50]) none _ (by decide)).2
+  · intro h
+    have := h.2.2.2
+    simp [Admin.step, checkOpt, Spec.aasd005] at this
+
+theorem c02_admin_atomic (s : Admin) (op : AdminOp) : (s.step op).2 ≠ .ok () → (s.step op).1 = s := by
+  cases op <;> simp only [Admin.step] <;> split <;> simp
+
+/-- AASd-005 through the revision setter: a revision without version raises constraint 5; malformed strings ValueError -/
+theorem c02_admin_revision_complete (s : Admin) (r : Option Str) (hbad : ¬ Spec.aasd005 s.version r) :
+    (s.step (.setRevision r)).2 = .error (.aascv 5) ∨ (s.step (.setRevision r)).2 = .error .valueError := by
+  simp only [Spec.aasd005, Classical.not_imp] at hbad
+  obtain ⟨hv, hr⟩ := hbad
+  cases r with
+  | none => exact absurd rfl hr
+  | some r =>
+    cases r with
+    | nil =>
+      right
+      simp [Admin.step, revisionChk, hv, checkOpt, checkNamed_revision, check]
+    | cons a b =>
+      left
+      simp [Admin.step, revisionChk, hv]
+
+/-- all op sequences that never clear the version while a revision is set keep the specification -/
+theorem c02_admin_run_partial (s : Admin) (hok : AdminOk s) :
+    ∀ ops : List AdminOp, (∀ op ∈ ops, op ≠ .setVersion none) → AdminOk (s.run ops) := by
+  intro ops
+  induction ops generalizing s with
+  | nil => intro _; exact hok
+  | cons op r ih =>
+    intro hn
+    apply ih
+    · by_cases h : (s.step op).2 = .ok ()
+      · exact c02_admin_sound_partial s op hok (fun he => absurd he (hn op (List.mem_cons_self ..))) h
+      · rw [c02_admin_atomic s op h]; exact hok
+    · intro o ho; exact hn o (List.mem_cons_of_mem _ ho)
+
+example : Admin.ctor none (some [50]) none = .error (.aascv 5) := by decide
+example : Admin.ctor (some [49, 48]) (some [48]) none = .ok ⟨some [49, 48], some [48], none⟩ := by decide
+example : Admin.ctor (some [48, 49]) none none = .error .valueError := by decide
+
+/-! ## 3f. typed values: XSD integer ranges through `trivial_cast` and the value setters -/
+
+/-- an int offered to a slot of an XSD integer type is stored unchanged, and only if it lies in the type's value space -/
+theorem c02_int_cast_sound (t : String) (ht : t ∈ Spec.integerTypes) (n : Int) (w : PyVal) :
+    trivialCast (.int n) t = .ok w → w = .int n ∧ Spec.InXsdRange t n := by
+  rw [castInt t n ht]
+  by_cases h1 : t = "Integer"
+  · subst h1
+    simp only [↓reduceIte, Except.ok.injEq]
+    intro h; exact ⟨h.symm, by simp [Spec.InXsdRange, Spec.xsdRanges]⟩
+  · simp only [h1, ↓reduceIte]
+    by_cases h2 : inIntRange t n = true
+    · simp only [h2, ↓reduceIte, Except.ok.injEq]
+      intro h; exact ⟨h.symm, (inIntRange_iff t n ht).1 h2⟩
+    · simp [h2]
+
+/-- … and an int outside the value space raises ValueError (all 12 bounded types, both ends, every n) -/
+theorem c02_int_cast_complete (t : String) (ht : t ∈ Spec.integerTypes) (n : Int) (hbad : ¬ Spec.InXsdRange t n) :
+    trivialCast (.int n) t = .error .valueError := by
+  rw [castInt t n ht]
+  have h1 : t ≠ "Integer" := by
+    intro h; subst h; exact hbad (by simp [Spec.InXsdRange, Spec.xsdRanges])
+  have h2 : ¬ inIntRange t n = true := fun h => hbad ((inIntRange_iff t n ht).1 h)
+  simp [h1, h2]
+
+def TypedOk (s : Typed) : Prop := ∀ v, s.value = some v → ∃ t, s.valueType = some t ∧ Spec.Conforms v t
+
+theorem c02_typed_atomic (s : Typed) (op : TypedOp) : (s.step op).2 ≠ .ok () → (s.step op).1 = s := by
+  cases op with
+  | setValue v =>
+    cases v with
+    | none => simp [Typed.step]
+    | some v => simp only [Typed.step]; split <;> (try split) <;> simp
+  | setValueType t => simp [Typed.step]
+
+/-- the value setter on an integer-typed slot: accepted ⇒ the stored value is that int and lies in range;
+    out of range ⇒ ValueError and the slot is unchanged -/
+theorem c02_typed_int_setter (s : Typed) (t : String) (ht : t ∈ Spec.integerTypes) (hs : s.valueType = some t) (n : Int) :
+    ((s.step (.setValue (some (.int n)))).2 = .ok () →
+        (s.step (.setValue (some (.int n)))).1 = { s with value := some (.int n) } ∧ Spec.Conforms (.int n) t) ∧
+    (¬ Spec.InXsdRange t n →
+        (s.step (.setValue (some (.int n)))).2 = .error .valueError ∧ (s.step (.setValue (some (.int n)))).1 = s) := by
+  simp only [Typed.step, hs]
+  constructor
+  · cases hc : trivialCast (.int n) t with
+    | error e => simp
+    | ok w =>
+      obtain ⟨rfl, hr⟩ := c02_int_cast_sound t ht n w hc
+      intro _; exact ⟨rfl, ht, hr⟩
+  · intro hbad
+    rw [c02_int_cast_complete t ht n hbad]
+    exact ⟨rfl, rfl⟩
+
+/-  FULL STATEMENT (false on the current tree — known findings `<Class>:typed.value_type:accepted:value-type-mismatch`):
+      theorem c02_typed_sound (s : Typed) (op : TypedOp) (hok : TypedOk s) : (s.step op).2 = .ok () → TypedOk (s.step op).1
+    `value_type` of Property / Range / Qualifier / Extension is a plain attribute; re-assigning it after a value was stored
+    leaves a value of the old type under the new type name.  Proved: value_type assignment on an empty slot is harmless
+    (`_partial`), and the negation on a witness. -/
+theorem c02_typed_value_type_partial (s : Typed) (t : Option String) (hok : TypedOk s) (hempty : s.value = none) :
+    TypedOk (s.step (.setValueType t)).1 := by
+  intro v hv
+  simp [Typed.step, hempty] at hv
+
+theorem c02_typed_value_type_reassign_breaks :
+    ∃ s : Typed, TypedOk s ∧ (s.step (.setValueType (some "String"))).2 = .ok () ∧
+      ¬ TypedOk (s.step (.setValueType (some "String"))).1 := by
+  refine ⟨⟨some "Int", some (.int 1)⟩, ?_, rfl, ?_⟩
+  · intro v hv
+    simp only [Option.some.injEq] at hv
+    subst hv
+    exact ⟨"Int", rfl, by simp [Spec.integerTypes], by simp [Spec.InXsdRange, Spec.xsdRanges]⟩
+  · intro h
+    obtain ⟨t, ht, hc⟩ := h (.int 1) rfl
+    simp only [Typed.step, Option.some.injEq] at ht
+    subst ht
+    simp [Spec.Conforms, Spec.integerTypes] at hc
+
+example : trivialCast (.int 2147483647) "Int" = .ok (.int 2147483647) := by decide
+example : trivialCast (.int 2147483648) "Int" = .error .valueError := by decide
+example : trivialCast (.int (-1)) "UnsignedLong" = .error .valueError := by decide
+example : trivialCast .float "Int" = .error .typeError := by decide
+example : trivialCast (.str true) "NormalizedString" = .error .valueError := by decide
+
+/-! ## 3g. LangStringSet family -/
+
+/-- the invariant the class maintains: never empty, every stored tag and text passed its check -/
+def LssInv (s : Lss) : Prop := s.d ≠ [] ∧ ∀ e ∈ s.d, tagCheck e.1 = .ok () ∧ textCheck s.cls e.2 = .ok ()
+
+theorem c02_lss_ctor (cls : String) (d : List (Str × Str)) (s : Lss) : Lss.ctor cls d = .ok s → s = ⟨cls, d⟩ ∧ LssInv s := by
+  unfold Lss.ctor
+  split
+  · simp
+  · rename_i h1
+    split
+    · simp
+    · rename_i h2
+      split
+      · simp
+      · rename_i h3
+        simp only [Except.ok.injEq]
+        intro hs; subst hs
+        refine ⟨rfl, ?_, ?_⟩
+        · intro hd
+          have : d = [] := hd
+          subst this
+          simp at h1
+        · intro e he
+          have h2' : (d.any fun e => tagCheck e.fst != Except.ok ()) = false := by simpa using h2
+          have h3' : (d.any fun e => textCheck cls e.snd != Except.ok ()) = false := by simpa using h3
+          have a := List.any_eq_false.1 h2' e he
+          have b := List.any_eq_false.1 h3' e he
+          simp only [bne_iff_ne, ne_eq, Classical.not_not] at a b
+          exact ⟨a, b⟩
+
+private theorem mem_dictSet (k v : Str) (d : List (Str × Str)) (e : Str × Str) : e ∈ dictSet k v d → e = (k, v) ∨ e ∈ d := by
+  unfold dictSet
+  split
+  · intro h
+    obtain ⟨x, hx, rfl⟩ := List.mem_map.1 h
+    by_cases hk : (x.1 == k) = true
+    · simp [hk]
+    · simp only [hk, Bool.false_eq_true, ↓reduceIte]; exact Or.inr hx
+  · intro h
+    rcases List.mem_append.1 h with h | h
+    · exact Or.inr h
+    · simp only [List.mem_singleton] at h; exact Or.inl h
+
+private theorem dictSet_ne_nil (k v : Str) (d : List (Str × Str)) : dictSet k v d ≠ [] := by
+  unfold dictSet
+  split
+  · rename_i h
+    intro hm
+    have : d = [] := by simpa using hm
+    subst this
+    simp [dictHas] at h
+  · simp
+
+/-- `__setitem__`: accepted ⇒ tag and text passed their checks and the invariant is kept; rejected ⇒ ValueError, unchanged -/
+theorem c02_lss_setitem (s : Lss) (k v : Str) (hinv : LssInv s) :
+    ((s.setItem k v).2 = .ok () → tagCheck k = .ok () ∧ textCheck s.cls v = .ok () ∧ LssInv (s.setItem k v).1) ∧
+    ((s.setItem k v).2 ≠ .ok () → (s.setItem k v).1 = s) := by
+  unfold Lss.setItem
+  cases hc : andThen (textCheck s.cls v) (tagCheck k) with
+  | error e => simp
+  | ok u =>
+    cases u
+    rw [andThen_ok] at hc
+    simp only [forall_const, ne_eq, not_true_eq_false, false_imp_iff, and_true]
+    refine ⟨hc.2, hc.1, dictSet_ne_nil k v s.d, ?_⟩
+    intro e he
+    rcases mem_dictSet k v s.d e he with rfl | h
+    · exact ⟨hc.2, hc.1⟩
+    · exact hinv.2 e h
+
+/-- texts of the constrained classes are within the documented limits whenever `__setitem__` / the constructor accept them -/
+theorem c02_lss_text_limits (cls : String) (mn mx : Nat) (h : (cls, mn, mx) ∈ StrCons.langLimits) (text : Str) :
+    textCheck cls text = .ok () ↔ Spec.StrOk mn mx text := by
+  have hne : (cls == "LangStringSet") = false := by
+    simp only [StrCons.langLimits, List.mem_cons, Prod.mk.injEq, List.not_mem_nil, or_false] at h
+    rcases h with h | h | h | h | h <;> obtain ⟨rfl, _, _⟩ := h <;> decide
+  unfold textCheck
+  rw [hne]
+  simp only [Bool.false_eq_true, ↓reduceIte]
+  exact c02_lang_bounds cls mn mx h text
+
+/-- non-emptiness can never be lost: `clear` always raises, deleting the last entry raises, both leave the set unchanged -/
+theorem c02_lss_nonempty_guard (s : Lss) (k : Str) :
+    (s.step .clear) = (s, .error .keyError) ∧
+    (s.d.length = 1 → s.step (.delItem k) = (s, .error .keyError) ∧ s.step (.pop k) = (s, .error .keyError) ∧
+        s.step .popItem = (s, .error .keyError)) := by
+  refine ⟨rfl, fun h1 => ?_⟩
+  have hd : ∀ k', s.delItem k' = (s, .error .keyError) := by intro k'; simp [Lss.delItem, h1]
+  refine ⟨hd k, ?_, ?_⟩
+  · simp only [Lss.step]; split <;> simp [hd]
+  · simp only [Lss.step]
+    cases hs : s.d with
+    | nil => rfl
+    | cons e r => obtain ⟨a, b⟩ := e; exact hd a
+
+/-- every single-key op is atomic -/
+theorem c02_lss_atomic_partial (s : Lss) (op : LssOp) (hnu : ∀ kvs, op ≠ .update kvs) :
+    (s.step op).2 ≠ .ok () → (s.step op).1 = s := by
+  have hset : ∀ k v, (s.setItem k v).2 ≠ .ok () → (s.setItem k v).1 = s := by
+    intro k v; unfold Lss.setItem; split <;> simp
+  have hdel : ∀ k, (s.delItem k).2 ≠ .ok () → (s.delItem k).1 = s := by
+    intro k; unfold Lss.delItem; split <;> (try split) <;> simp
+  cases op with
+  | setItem k v => exact hset k v
+  | delItem k => exact hdel k
+  | clear => simp [Lss.step]
+  | update kvs => exact absurd rfl (hnu kvs)
+  | setDefault k v => simp only [Lss.step]; split <;> first | exact hset k v | simp
+  | pop k => simp only [Lss.step]; split <;> first | exact hdel k | simp
+  | popItem =>
+    simp only [Lss.step]
+    split
+    · simp
+    · exact hdel _
+
+/-  FULL STATEMENT (false — known finding `lss.update:raised:not-atomic`):
+      theorem c02_lss_atomic (s : Lss) (op : LssOp) : (s.step op).2 ≠ .ok () → (s.step op).1 = s
+    `MutableMapping.update` assigns key by key; the keys before the first rejected one stay set. -/
+theorem c02_lss_update_not_atomic :
+    ∃ (s : Lss) (kvs : List (Str × Str)), LssInv s ∧ (s.step (.update kvs)).2 = .error .valueError ∧ (s.step (.update kvs)).1 ≠ s := by
+  refine ⟨⟨"LangStringSet", [([101, 110], [97])]⟩, [([100, 101], [120]), ([69], [121])], ?_, by decide, by decide⟩
+  exact (c02_lss_ctor "LangStringSet" [([101, 110], [97])] _ (by decide)).2
+
+/-- `update` is nevertheless sound: whatever prefix it applied, the invariant holds afterwards -/
+theorem c02_lss_update_sound (s : Lss) (hinv : LssInv s) : ∀ kvs, LssInv (s.update kvs).1 := by
+  intro kvs
+  induction kvs generalizing s with
+  | nil => exact hinv
+  | cons e r ih =>
+    obtain ⟨k, v⟩ := e
+    simp only [Lss.update]
+    have hs := c02_lss_setitem s k v hinv
+    cases hr : (s.setItem k v).2 with
+    | ok u =>
+      have h1 := (hs.1 (by rw [hr])).2.2
+      have : s.setItem k v = ((s.setItem k v).1, .ok u) := by rw [← hr]
+      rw [this]
+      exact ih _ h1
+    | error e' =>
+      have h1 := hs.2 (by rw [hr]; simp)
+      have : s.setItem k v = ((s.setItem k v).1, .error e') := by rw [← hr]
+      rw [this, h1]
+      exact hinv
+
+example : Lss.ctor "MultiLanguageNameType" [] = .error .valueError := by decide
+example : Lss.ctor "MultiLanguageNameType" [([69, 78], [97])] = .error .valueError := by decide
+example : (Lss.step ⟨"ShortNameTypeIEC61360", [([101, 110], [97])]⟩ (.setItem [100, 101] (List.replicate 19 97))).2 = .error .valueError := by
+  decide
+
+/-! ## 3h. SubmodelElementList: what `_check_constraints` + the id hook let in (AASd-107/108/109/114/120) -/
+
+def SmlListOk (c : SmlCfg) (l : List SmlElem) : Prop :=
+  (∀ e ∈ l, e.hasIdShort = false) ∧                                                            -- AASd-120
+  (∀ e ∈ l, e.cls = c.typeValue) ∧                                                              -- AASd-108
+  (∀ e ∈ l, ∀ si, c.semIdList = some si → ∀ se, e.semId = some se → se = si) ∧                 -- AASd-107
+  ((c.typeValue = "Property" ∨ c.typeValue = "Range") → ∀ e ∈ l, e.valueType = c.valueType) ∧   -- AASd-109
+  (∀ a ∈ l, ∀ b ∈ l, ∀ x y, a.semId = some x → b.semId = some y → x = y)                       -- AASd-114
+
+theorem c02_sml_add_sound (c : SmlCfg) (new : SmlElem) (l : List SmlElem) (hok : SmlListOk c l) :
+    smlAddChk c new l = .ok () → SmlListOk c (l ++ [new]) := by
+  unfold smlAddChk
+  split
+  · simp
+  · rename_i h120
+    split
+    · simp
+    · rename_i h108
+      split
+      · simp
+      · rename_i h107
+        split
+        · simp
+        · rename_i h109
+          split
+          · simp
+          · rename_i h114
+            intro _
+            simp only [Bool.not_eq_true] at h120
+            simp only [bne_iff_ne, ne_eq, Classical.not_not] at h108
+            obtain ⟨o1, o2, o3, o4, o5⟩ := hok
+            refine ⟨?_, ?_, ?_, ?_, ?_⟩
+            · intro e he
+              rcases List.mem_append.1 he with he | he
+              · exact o1 e he
+              · simp only [List.mem_singleton] at he; subst he; exact h120
+            · intro e he
+              rcases List.mem_append.1 he with he | he
+              · exact o2 e he
+              · simp only [List.mem_singleton] at he; subst he; exact h108
+            · intro e he si hsi se hse
+              rcases List.mem_append.1 he with he | he
+              · exact o3 e he si hsi se hse
+              · simp only [List.mem_singleton] at he; subst he
+                simp only [hsi, Option.isSome_some, hse, Bool.true_and, bne_iff_ne, ne_eq, Option.some.injEq, Classical.not_not] at h107
+                exact h107
+            · intro ht e he
+              rcases List.mem_append.1 he with he | he
+              · exact o4 ht e he
+              · simp only [List.mem_singleton] at he; subst he
+                have : (c.typeValue == "Property" || c.typeValue == "Range") = true := by
+                  rcases ht with ht | ht <;> simp [ht]
+                simp only [this, Bool.true_and, bne_iff_ne, ne_eq, Classical.not_not] at h109
+                exact h109
+            · -- AASd-114: all present semantic ids agree
+              have hnew : ∀ b ∈ l, ∀ x y, new.semId = some x → b.semId = some y → x = y := by
+                intro b hb x y hx hy
+                cases hs : c.semIdList with
+                | some si =>
+                  have := o3 b hb si hs y hy
+                  simp only [hs, Option.isSome_some, hx, Bool.true_and, bne_iff_ne, ne_eq, Option.some.injEq, Classical.not_not] at h107
+                  rw [h107, this]
+                | none =>
+                  simp only [hx, Option.isSome_some, hs, Option.isNone_none, Bool.true_and, Bool.not_eq_true] at h114
+                  have := List.any_eq_false.1 h114 b hb
+                  simp only [hy, Option.isSome_some, Bool.true_and, bne_iff_ne, ne_eq, Option.some.injEq, Classical.not_not] at this
+                  exact this
+              intro a ha b hb x y hx hy
+              rcases List.mem_append.1 ha with ha' | ha' <;> rcases List.mem_append.1 hb with hb' | hb'
+              · exact o5 a ha' b hb' x y hx hy
+              · simp only [List.mem_singleton] at hb'; subst hb'; exact (hnew a ha' y x hy hx).symm
+              · simp only [List.mem_singleton] at ha'; subst ha'; exact hnew b hb' x y hx hy
+              · simp only [List.mem_singleton] at ha' hb'; subst ha'; subst hb'; rw [hx] at hy; exact Option.some.inj hy
+
+/-- the number raised names the violated rule (completeness of the add check) -/
+theorem c02_sml_add_complete (c : SmlCfg) (new : SmlElem) (l : List SmlElem) (hok : SmlListOk c l)
+    (hbad : ¬ SmlListOk c (l ++ [new])) : ∃ n, n ∈ [120, 108, 107, 109, 114] ∧ smlAddChk c new l = .error (.aascv n) := by
+  cases h : smlAddChk c new l with
+  | ok u => cases u; exact absurd (c02_sml_add_sound c new l hok h) hbad
+  | error e =>
+    unfold smlAddChk at h
+    split at h
+    · cases h; exact ⟨120, by simp, rfl⟩
+    · split at h
+      · cases h; exact ⟨108, by simp, rfl⟩
+      · split at h
+        · cases h; exact ⟨107, by simp, rfl⟩
+        · split at h
+          · cases h; exact ⟨109, by simp, rfl⟩
+          · split at h
+            · cases h; exact ⟨114, by simp, rfl⟩
+            · cases h
+
+/-- every list built by successive accepted adds satisfies the five rules -/
+theorem c02_sml_adds (c : SmlCfg) : ∀ (news : List SmlElem) (l : List SmlElem), SmlListOk c l →
+    SmlListOk c (news.foldl (fun acc e => if smlAddChk c e acc = .ok () then acc ++ [e] else acc) l) := by
+  intro news
+  induction news with
+  | nil => intro l h; exact h
+  | cons e r ih =>
+    intro l h
+    simp only [List.foldl_cons]
+    apply ih
+    by_cases hc : smlAddChk c e l = .ok ()
+    · rw [if_pos hc]; exact c02_sml_add_sound c e l h hc
+    · rw [if_neg hc]; exact h
+
+example : smlCtorChk ⟨"Property", none, none⟩ = .error (.aascv 109) := by decide
+example : smlAddChk ⟨"Property", none, some "Int"⟩ ⟨"Property", some 1, some "Int", false⟩ [⟨"Property", some 0, some "Int", false⟩]
+    = .error (.aascv 114) := by decide
+example : SmlListOk ⟨"Capability", none, none⟩ [] := by simp [SmlListOk]
 
 end Basyx.Constraints
